@@ -355,8 +355,27 @@ func (m *Machine) stub(fn *ssa.Function, args []Val) (r Val, ok bool) {
 		}
 		return nil, true
 	case "(*sync.Pool).Get":
-		// model: the pool is empty; call New if set
+		// poolMode 0: the most recently Put object, else New(), else nil. poolMode 1 (adversarial): nil/New() or ANY
+		// object Put earlier on this path - the choice is a decision variable.
 		p := args[0].(Ptr)
+		puts := m.poolPut[p.obj]
+		if len(puts) > 0 {
+			pick := len(puts) - 1
+			if m.poolMode == 1 {
+				pick = -1
+				for i := range puts {
+					if m.branch(m.newEnvNondet(0, "pool")) {
+						pick = i
+						break
+					}
+				}
+			}
+			if pick >= 0 {
+				v := puts[pick]
+				m.poolPut[p.obj] = append(append([]Val{}, puts[:pick]...), puts[pick+1:]...)
+				return v, true
+			}
+		}
 		pt := fn.Signature.Recv().Type().(*types.Pointer).Elem()
 		st := pt.Underlying().(*types.Struct)
 		offs := sizes.Offsetsof(fieldsOf(st))
@@ -371,6 +390,10 @@ func (m *Machine) stub(fn *ssa.Function, args []Val) (r Val, ok bool) {
 		}
 		return Iface{}, true
 	case "(*sync.Pool).Put":
+		p := args[0].(Ptr)
+		if iv, ok := args[1].(Iface); ok && iv.t != nil {
+			m.poolPut[p.obj] = append(m.poolPut[p.obj], args[1])
+		}
 		return nil, true
 	case "(*sync/atomic.Value).Load":
 		p := args[0].(Ptr)
